@@ -92,6 +92,7 @@ type Path struct {
 	fs        map[string]*memFile
 	markers   map[int]*Term
 	keyCounter int
+	fpCuts    int
 	regexps   map[*value]*regexp.Regexp
 	profile   map[*ssa.Function]int
 	coverPending []string
@@ -243,6 +244,9 @@ func (p *Path) concretize(t *Term, lo, hi int64) value {
 // f2i converts float64 to an integer type. In-range values truncate toward zero; the result
 // for out-of-range / NaN inputs is implementation-defined in Go and modelled as unconstrained.
 func (p *Path) f2i(x *Term, bits uint8, signed bool) *Term {
+	if r := p.f2iCut(x, bits, signed); r != nil {
+		return r
+	}
 	st := p.store
 	var lo, hi float64
 	if signed {
